@@ -60,6 +60,12 @@ class Backfilling(TMGRSchedulingComponent):
 
             # initialize custom data for the pilot
             for pid in pids:
+
+                # keep the usage info of a pilot which gets re-added: the
+                # tasks assigned earlier are still assigned to it
+                if 'used' in self._pilots[pid]['info']:
+                    continue
+
                 pilot = self._pilots[pid]['pilot']
                 cores = pilot['description']['cores']
                 hwm   = int(cores * _HWM / 100)
